@@ -16,7 +16,7 @@ use crate::runner::{CheckResult, Env, Job, Outcome, PropJob};
 pub const RULE: &str = "case = read set x stranded x threshold x entry point (hash table with extensions pruned to present k-mers, sorted slice pruned by remove_censored_exts, bare k-mers) x join predicate (always-true SimpleCompress, equality 'colour' ScmapCompress over label sets); oracle = connected components (union-find) of the compressible links of the bidirected k-mer graph computed from the string-level table; the partition of k-mers into nodes must equal it exactly (no under- and no over-merging). Non-trivial = expected partition has a component of size >= 2 and at least one present-but-not-compressible link (branch, palindrome, self/hairpin link, colour boundary).";
 pub const TECHNIQUE: &str = "seeded proptest; independent union-find over compressible links of the string-level bidirected k-mer graph";
 
-pub fn check<K: Kmer, P: PayKind>(c: &GCase) -> CheckResult {
+pub fn check<K: Kmer + Send + Sync, P: PayKind>(c: &GCase) -> CheckResult {
     let k = K::k();
     let reads = c.reads(k);
     let (nodes, seen): (_, PTable<P>) = match c.entry {
@@ -41,6 +41,18 @@ pub fn check<K: Kmer, P: PayKind>(c: &GCase) -> CheckResult {
             (nodes_of_base(&g), seen)
         }
     };
+    // every fourth case goes on through the node-level route: one k-mer per node (randomly oriented,
+    // shuffled) -> finish -> compress_graph; the same partition must come out
+    let via_graph = c.aux % 4 == 0;
+    let nodes = if via_graph {
+        let singles = crate::props::c09::split_nodes(&nodes, &seen, k, c.stranded, true, c.aux);
+        let base: debruijn::graph::BaseGraph<K, P> = crate::props::c09::base_from_nodes(&singles, c.stranded);
+        let g = if c.aux & 4 == 0 { base.finish() } else { base.finish_serial() };
+        let res = debruijn::compression::compress_graph(c.stranded, &P::spec(), g, None);
+        crate::pipeline::nodes_of(&res)
+    } else {
+        nodes
+    };
     let pruned = model::prune_exts(&seen, c.stranded);
     if !model::table_consistent(&pruned, c.stranded) {
         return Err("harness: generated table is not consistent (generator problem)".into());
@@ -61,13 +73,14 @@ pub fn check<K: Kmer, P: PayKind>(c: &GCase) -> CheckResult {
         .label(info.has_join_boundary, "has_colour_boundary")
         .label(big, "component>=2")
         .label(info.parts.iter().any(|p| p.len() >= 8), "component>=8")
+        .label(via_graph, "via_compress_graph")
         .label(c.stranded, "stranded")
         .label(c.entry == Entry3::Hash, "entry_hash")
         .label(c.entry == Entry3::SortedSlice, "entry_sorted_slice")
         .label(c.entry == Entry3::NoExts, "entry_no_exts"))
 }
 
-fn build<K: Kmer + 'static>(name: &'static str, _env: &Env) -> Vec<Box<dyn Job>> {
+fn build<K: Kmer + Send + Sync + 'static>(name: &'static str, _env: &Env) -> Vec<Box<dyn Job>> {
     let k = K::k();
     let small = k <= 8;
     let (q, t) = if small { (500, 20000) } else { (150, 5000) };
